@@ -1000,7 +1000,7 @@ Qed.
 Lemma replay_ret hs c0 t o c' rv : replay hs cont0 = Some c0 -> (forall v, o <> FulfillAll v) ->
   apply o c0 = (c', rv, false) -> replay (hs ++ [(t, o, ORet rv)]) cont0 = Some c'.
 Proof.
-  intros H Hn Ha. rewrite replay_app, H. destruct o; cbn; try (rewrite Ha, Z.eqb_refl; reflexivity).
+  intros H Hn Ha. rewrite replay_app, H. destruct o; cbn [replay]; try (rewrite Ha, Z.eqb_refl; reflexivity).
   exfalso. eapply Hn; reflexivity.
 Qed.
 Lemma replay_exn hs c0 t o : replay hs cont0 = Some c0 -> replay (hs ++ [(t, o, OExn)]) cont0 = Some c0.
@@ -1053,3 +1053,157 @@ Proof.
   - split; [apply CInv_init|reflexivity].
   - destruct q; discriminate.
 Qed.
+(* ---------- shape of the pcs produced by the lock step and by the loop ---------- *)
+Lemma ful_goto_cases v c0 c k r c' p' flt : ful_goto false v c0 c k r = (c', p', flt) ->
+  (exists k' key q r', p' = P_ful v k' key q r' c0 /\ c' = c /\ flt = false) \/
+  (p' = P_unlock (ORet 0) /\ flt = false /\ c' = c) \/
+  (p' = P_unlock OFault /\ c' = c /\ flt = true).
+Proof.
+  unfold ful_goto. destruct r as [|[key q] r'].
+  - destruct k; [intros H; inversion H; subst; right; left; auto|].
+    destruct (pend c true) as [|[key q] r']; [intros H; inversion H; subst; right; left; auto|].
+    destruct (is_unset (heap c) q); intros H; inversion H; subst; [left; eexists _, _, _, _; auto|right; right; auto].
+  - destruct (is_unset (heap c) q); intros H; inversion H; subst; [left; eexists _, _, _, _; auto|right; right; auto].
+Qed.
+Lemma enter_cases o c c' p' flt : enter false o c = (c', p', flt) ->
+  (p' = P_call o /\ c' = c /\ flt = false) \/
+  (exists v k key q r, o = FulfillAll v /\ p' = P_ful v k key q r c /\ c' = c /\ flt = false) \/
+  (exists out, p' = P_unlock out).
+Proof.
+  intros He. destruct o; cbn [enter] in He;
+    try (destruct (apply _ c) as [[c1 rv] fl]; inversion He; subst; right; right; eexists; reflexivity).
+  - destruct mv; [destruct (apply (SetValue true k key v) c) as [[c1 rv] fl]; inversion He; subst; right; right; eexists; reflexivity|].
+    destruct (afind key (pend c k)); [destruct (is_unset (heap c) n)|]; inversion He; subst;
+      [left; auto|right; right; eexists; reflexivity|right; right; eexists; reflexivity].
+  - destruct (ful_goto_cases _ _ _ _ _ _ _ _ He) as [[k' [key [q [r' [-> [-> ->]]]]]]|[[-> _]|[-> _]]].
+    + right; left. exists v, k', key, q, r'. auto.
+    + right; right. eexists; reflexivity.
+    + right; right. eexists; reflexivity.
+Qed.
+Lemma enter_holds o c c' p' flt : enter false o c = (c', p', flt) -> holds p' = true.
+Proof.
+  intros He. destruct (enter_cases _ _ _ _ _ He) as [[-> _]|[[v [k [key [q [r [_ [-> _]]]]]]]|[out ->]]]; reflexivity.
+Qed.
+Lemma ful_goto_holds v c0 c k r c' p' flt : ful_goto false v c0 c k r = (c', p', flt) -> holds p' = true.
+Proof.
+  intros He. destruct (ful_goto_cases _ _ _ _ _ _ _ _ He) as [[k' [key [q [r' [-> _]]]]]|[[-> _]|[-> _]]]; reflexivity.
+Qed.
+
+(* ---------- ownership of the mutex ---------- *)
+Definition Own (m : option nat) (ls : list loc) : Prop :=
+  (forall u, holds (pcof ls u) = true -> m = Some u) /\ (forall a, m = Some a -> holds (pcof ls a) = true).
+Lemma own_same m ls t l l' : Own m ls -> nth_error ls t = Some l -> holds (at_ l') = holds (at_ l) -> Own m (upd ls t l').
+Proof.
+  intros [HO HH] Hl Hh. pose proof (pcof_at _ _ _ Hl) as Hp. split.
+  - intros u. rewrite (pcof_upd _ _ _ _ _ Hl). destruct (Nat.eqb_spec u t) as [->|]; [|apply HO].
+    rewrite Hh, <- Hp. apply HO.
+  - intros a Hm. rewrite (pcof_upd _ _ _ _ _ Hl). destruct (Nat.eqb_spec a t) as [->|]; [|apply HH; exact Hm].
+    rewrite Hh, <- Hp. apply HH. exact Hm.
+Qed.
+Lemma own_lock ls t l l' : Own None ls -> nth_error ls t = Some l -> holds (at_ l') = true -> Own (Some t) (upd ls t l').
+Proof.
+  intros [HO HH] Hl Hh. split.
+  - intros u. rewrite (pcof_upd _ _ _ _ _ Hl). destruct (Nat.eqb_spec u t) as [->|]; [reflexivity|].
+    intros Hu. specialize (HO _ Hu). discriminate.
+  - intros a Hm. inversion Hm; subst. rewrite (pcof_upd _ _ _ _ _ Hl), Nat.eqb_refl. exact Hh.
+Qed.
+Lemma own_unlock m ls t l l' : Own m ls -> nth_error ls t = Some l -> holds (at_ l) = true -> holds (at_ l') = false ->
+  Own None (upd ls t l').
+Proof.
+  intros [HO HH] Hl Hh Hh'. pose proof (pcof_at _ _ _ Hl) as Hp. split.
+  - intros u. rewrite (pcof_upd _ _ _ _ _ Hl). destruct (Nat.eqb_spec u t) as [->|Hne]; [congruence|].
+    intros Hu. exfalso. apply Hne. pose proof (HO _ Hu) as E1. rewrite <- Hp in Hh. pose proof (HO _ Hh) as E2. congruence.
+  - discriminate.
+Qed.
+(* somebody else inside a section excludes t from taking a step that needs or takes the lock *)
+Lemma own_unique m ls t u : Own m ls -> holds (pcof ls t) = true -> holds (pcof ls u) = true -> u = t.
+Proof. intros [HO _] H1 H2. pose proof (HO _ H1). pose proof (HO _ H2). congruence. Qed.
+
+Lemma drop_length q h : length (drop q h) = length h.
+Proof. destruct (drop_spec q h) as [[k [key [_ [_ [E _]]]]]|[_ E]]; [exact E|rewrite E; reflexivity]. Qed.
+Lemma enter_get_length k key sl c c' p' flt : enter false (GetFuture k key sl) c = (c', p', flt) ->
+  length (heap c') = S (length (heap c)).
+Proof.
+  cbn [enter apply]. intros H; inversion H; subst. cbn [heap].
+  destruct (afind key (pend c k)); cbn [drop_opt]; rewrite ?drop_length, app_length; cbn; lia.
+Qed.
+
+(* which steps change the container: only those of a thread that takes or owns the lock *)
+Lemma stepk_ct t g l g' l' es : stepk t g l g' l' es ->
+  ct g' = ct g \/ (at_ l <> Idle /\ (mtx g = None \/ holds (at_ l) = true)).
+Proof.
+  intros H. destruct H; cbn [ct]; auto; right.
+  all: match goal with Ha : at_ _ = _ |- _ => rewrite Ha end; split; try discriminate; auto.
+Qed.
+Lemma stepk_hle t g l g' l' es : stepk t g l g' l' es -> hle (heap (ct g)) (heap (ct g')).
+Proof.
+  intros H. destruct H; cbn [ct]; try apply hle_refl.
+  - eapply enter_hle; eauto.
+  - eapply apply_hle; eauto.
+  - rewrite (ful_goto_heap _ _ _ _ _ _ _ _ H2). eapply iter_hle; eauto.
+Qed.
+
+Lemma Base_step t g ls l g' l' es : Base g ls -> nth_error ls t = Some l -> stepk t g l g' l' es -> Base g' (upd ls t l').
+Proof.
+  intros [HO HH HSL HFP] Hl Hs.
+  pose proof (pcof_at _ _ _ Hl) as Hp.
+  pose proof (hle_length _ _ (stepk_hle _ _ _ _ _ _ Hs)) as Hlen.
+  assert (HOwn : Own (mtx g) ls) by (split; assumption).
+  (* slots: nobody's futures move, except the one getFuture just delivered *)
+  assert (Hslots : (forall i p, nth_error (slots l') i = Some (Some p) -> (p < length (heap (ct g')))%nat) ->
+            forall u l0 i p, nth_error (upd ls t l') u = Some l0 -> nth_error (slots l0) i = Some (Some p) ->
+              (p < length (heap (ct g')))%nat).
+  { intros Hown u l0 i p Hu Hi. destruct (nth_upd _ _ _ _ _ Hu) as [[-> [-> _]]|[_ Hu']]; [eapply Hown; eauto|].
+    specialize (HSL _ _ _ _ Hu' Hi). lia. }
+  assert (Hsl_same : slots l' = slots l ->
+            forall i p, nth_error (slots l') i = Some (Some p) -> (p < length (heap (ct g')))%nat).
+  { intros E i p Hi. rewrite E in Hi. specialize (HSL _ _ _ _ Hl Hi). lia. }
+  (* a loop of somebody else keeps its snapshot of the string map: t cannot touch the container *)
+  assert (Hfp_other : forall u v key q r c0, u <> t -> pcof ls u = P_ful v false key q r c0 ->
+            pend (ct g') true = pend c0 true).
+  { intros u v key q r c0 Hne Hu. rewrite <- (HFP _ _ _ _ _ _ Hu).
+    destruct (stepk_ct _ _ _ _ _ _ Hs) as [->|[_ [Hm|Hh]]]; [reflexivity| |].
+    - assert (holds (pcof ls u) = true) as Hhu by (rewrite Hu; reflexivity). specialize (HO _ Hhu). congruence.
+    - exfalso. apply Hne. eapply own_unique; eauto; [rewrite Hp; exact Hh|rewrite Hu; reflexivity]. }
+  assert (Hfp : (forall v key q r c0, at_ l' = P_ful v false key q r c0 -> pend (ct g') true = pend c0 true) ->
+            forall u v key q r c0, pcof (upd ls t l') u = P_ful v false key q r c0 -> pend (ct g') true = pend c0 true).
+  { intros Hown u v key q r c0. rewrite (pcof_upd _ _ _ _ _ Hl). destruct (Nat.eqb_spec u t) as [->|Hne].
+    - apply Hown.
+    - apply Hfp_other. exact Hne. }
+  destruct Hs.
+  - destruct (own_same _ _ _ _ (Loc r (P_lock o) (slots l)) HOwn Hl) as [A B]; [rewrite H; reflexivity|].
+    constructor; cbn [mtx ct]; auto; [apply Hslots; apply Hsl_same; reflexivity|apply Hfp; cbn; intros; discriminate].
+  - destruct (own_same _ _ _ _ (Loc r Idle (slots l)) HOwn Hl) as [A B]; [rewrite H; reflexivity|].
+    constructor; cbn [mtx ct]; auto; [apply Hslots; apply Hsl_same; reflexivity|apply Hfp; cbn; intros; discriminate].
+  - rewrite H0 in HOwn.
+    destruct (own_lock _ _ _ (Loc (prog l) p' (new_slots o g l)) HOwn Hl) as [A B]; [eapply enter_holds; eauto|].
+    constructor; cbn [mtx ct]; auto.
+    + apply Hslots. cbn [slots ct]. unfold new_slots. destruct o; try (apply Hsl_same; reflexivity).
+      intros i p Hi. cbn [ct] in *. rewrite (enter_get_length _ _ _ _ _ _ _ H1).
+      destruct (nth_upd _ _ _ _ _ Hi) as [[_ [E _]]|[_ Hi']]; [inversion E; lia|].
+      specialize (HSL _ _ _ _ Hl Hi'). lia.
+    + apply Hfp. cbn [at_ ct]. intros v key q r c0 E.
+      destruct (enter_cases _ _ _ _ _ H1) as [[-> _]|[[v0 [k0 [key0 [q0 [r0 [_ [-> [-> _]]]]]]]]|[out ->]]]; try discriminate.
+      inversion E; subst. reflexivity.
+  - destruct (own_same _ _ _ _ (Loc (prog l) (P_unlock OExn) (slots l)) HOwn Hl) as [A B]; [rewrite H; reflexivity|].
+    constructor; cbn [mtx ct]; auto; [apply Hslots; apply Hsl_same; reflexivity|apply Hfp; cbn; intros; discriminate].
+  - destruct (own_same _ _ _ _ (Loc (prog l) (P_unlock (out_of rv flt)) (slots l)) HOwn Hl) as [A B]; [rewrite H; reflexivity|].
+    constructor; cbn [mtx ct]; auto; [apply Hslots; apply Hsl_same; reflexivity|apply Hfp; cbn; intros; discriminate].
+  - destruct (own_same _ _ _ _ (Loc (prog l) (P_unlock OExn) (slots l)) HOwn Hl) as [A B]; [rewrite H; reflexivity|].
+    constructor; cbn [mtx ct]; auto; [apply Hslots; apply Hsl_same; reflexivity|apply Hfp; cbn; intros; discriminate].
+  - destruct (own_same _ _ _ _ (Loc (prog l) (P_unlock OFault) (slots l)) HOwn Hl) as [A B]; [rewrite H; reflexivity|].
+    constructor; cbn [mtx ct]; auto; [apply Hslots; apply Hsl_same; reflexivity|apply Hfp; cbn; intros; discriminate].
+  - destruct (own_same _ _ _ _ (Loc (prog l) p' (slots l)) HOwn Hl) as [A B];
+      [rewrite H; cbn; eapply ful_goto_holds; eauto|].
+    constructor; cbn [mtx ct]; auto; [apply Hslots; apply Hsl_same; reflexivity|].
+    apply Hfp. cbn [at_ ct]. intros v0 key0 q0 r0 c1 E.
+    destruct (ful_goto_cases _ _ _ _ _ _ _ _ H2) as [[k' [key' [q' [r' [-> [-> _]]]]]]|[[-> _]|[-> _]]]; try discriminate.
+    inversion E; subst. destruct k.
+    + (* the string loop never goes back to the int loop *)
+      exfalso. unfold ful_goto in H2. destruct r as [|[ka qa] ra]; [discriminate|].
+      destruct (is_unset _ qa); inversion H2.
+    + unfold iter; cbn [pend]. rewrite setf_ne by discriminate. eapply (HFP t). rewrite Hp. exact H.
+  - destruct (own_unlock _ _ _ _ (Loc (prog l) Idle (slots l)) HOwn Hl) as [A B]; [rewrite H; reflexivity|reflexivity|].
+    constructor; cbn [mtx ct]; auto; [apply Hslots; apply Hsl_same; reflexivity|apply Hfp; cbn; intros; discriminate].
+Qed.
+
